@@ -179,6 +179,11 @@ TChildSuspend == IsEvent("ChildSuspend") /\ Ok
 TChildSuspendNoop == IsEvent("ChildSuspend") /\ Ok
           /\ (cstate[Args.c] = "suspended" \/ ~HasCerts(Args.c))
           /\ UNCHANGED vars /\ Projected(Line.abs)
+\* the check for inactive children of every CA
+TAutoSuspend == IsEvent("AutoSuspend") /\ Ok
+          /\ AutoSuspend(IF "marked" \in DOMAIN Rec[l - 1].abs
+                         THEN SetOf(Rec[l - 1].abs.marked) ELSE {})
+          /\ Projected(Line.abs)
 TChildUnsuspend == IsEvent("ChildUnsuspend") /\ Ok
           /\ ChildUnsuspend(Args.c) /\ Projected(Line.abs)
 TChildUnsuspendNoop == IsEvent("ChildUnsuspend") /\ Ok
@@ -401,6 +406,7 @@ TSettled == IsEvent("Settled") /\ UNCHANGED vars /\ Projected(Line.abs)
 TraceNextCa ==
     \/ Setup
     \/ TAddCa \/ TAddParent \/ TRemoveParent \/ TChildRes \/ TChildResSame \/ TChildSuspend \/ TChildSuspendNoop
+    \/ TAutoSuspend
     \/ TChildUnsuspend \/ TChildUnsuspendNoop \/ TChildRemove
     \/ TChildMap \/ TRoaAdd \/ TRoaDel \/ TRtrAdd \/ TRtrDel \/ TRoaDelta \/ TAspaSet \/ TAspaDel \/ TRollInit \/ TRollInitNoop
     \/ TRollActivate \/ TRollActivateNoop \/ TDeleteCa \/ TRefresh
